@@ -68,6 +68,8 @@ def gen_config(seed):
             if py in ('int', 'long') and ft != 'FIXED':
                 f['field_length'] = r.choice((0, 4, 9))
         f = dict(f)
+        if 'field_python_type' not in f and (b + seed) % 3 == 0:
+            f['field_python_type'] = 'string'          # the documented default written out (also on the binary ICC element)
         f['field_name'] = 'generated %d' % b
         cfg[str(b)] = f
     return cfg
@@ -98,9 +100,21 @@ def pkg_shuffled(k):
     return {x: bc[x] for x in keys}
 
 
+def pkg_explicit():
+    """the packaged configuration with the default python type "string" written out on every element that has none"""
+    import copy
+    bc = copy.deepcopy(PKG['bit_config'])
+    for b, f in bc.items():
+        if b != '1' and 'field_python_type' not in f:
+            f['field_python_type'] = 'string'
+    return bc
+
+
 def get_config(spec):
     if spec[0] == 'pkg':
         return PKG['bit_config']
+    if spec[0] == 'pkgstr':
+        return pkg_explicit()
     if spec[0] == 'pkgshuf':
         return pkg_shuffled(spec[1])
     if spec[0] == 'pkgvar':
